@@ -396,28 +396,30 @@ def check(ctx: Ctx) -> None:
             ob.violation(fw, appends[0], "waitall tests `_running` and registers its event in different lock regions: a completion in between is lost")
         if LOCK in lexical_locks(repo, fw, waits[0]):
             ob.violation(fw, waits[0], "waitall waits for its event while holding _running_lock")
-        # returns True only when empty; else returns the wait result
-        rets = [n for n in repo.own_nodes(fw) if isinstance(n, ast.Return)]
-        for r in rets:
-            if isinstance(r.value, ast.Constant) and r.value.value is True:
-                cf = build_cfg(repo, fw, Oracle(repo, fw, precise=True))
-                ok = False
-                for nd in cf.node_containing(r):
-                    f = Facts(repo, fw)
-                    for (t, lab) in cf.guards(nd.id):
-                        if t.kind == "test":
-                            f.assume(t.ast, lab == "true")
-                    if f.get("self._running") is False:
-                        ok = True
-                ob.site(fw, r, "`return True` only when _running is empty", ok=ok)
+        # returns True only when empty; else returns the result of waiting (with the caller's timeout) on the event it registered
+        from ..terms import const as _c, evaluator as _ev, show as _show
+        evw = _ev(repo, fw)
+        RUN = ("sym", "self._running")
+        nret = 0
+        for (pth, st_) in evw.run(limit=4000):
+            if pth[-1][0] != evw.cfg.exit.id:
+                continue
+            nret += 1
+            r = st_.ret if st_.ret is not None else _c(None)
+            if r == _c(True):
+                ok = st_.known.get(RUN) is False
+                ob.site(fw, fw.node, "`return True` only when _running is empty", ok=ok)
                 if not ok:
-                    ob.violation(fw, r, "waitall returns True without `_running` being empty")
-            elif not (isinstance(r.value, ast.Call) and r.value is waits[0]):
-                ob.violation(fw, r, "waitall returns something other than True-when-empty or the event wait result")
-        # the timeout reaches the wait
-        tw = waits[0]
-        if not any(unparse(x) == "timeout" for x in list(tw.args) + [k.value for k in tw.keywords]):
-            ob.violation(fw, tw, "waitall does not forward its timeout to the event wait")
+                    ob.violation(fw, fw.node, "waitall returns True without `_running` being empty")
+                continue
+            wt = [e for e in st_.events if e.kind == "call" and e.attr == "wait" and e.result == r]
+            reg = [e for e in st_.events if e.kind == "call" and e.callee == "self._waitall_events.append"]
+            ok = len(wt) == 1 and len(reg) == 1 and reg[0].args[:1] == (wt[0].recv,) and st_.events.index(reg[0]) < st_.events.index(wt[0])
+            if not ok:
+                ob.violation(fw, fw.node, "waitall returns something other than True-when-empty or the event wait result")
+            elif ("sym", "timeout") not in (list(wt[0].args) + list(wt[0].kwargs.values())):
+                ob.violation(fw, wt[0].node, "waitall does not forward its timeout to the event wait")
+        ob.require(nret >= 2, "waitall: return paths not found")
         # _perform_spawn: run, then remove + notify in one region
         rm = [c for c in repo.calls_in(fp) if callee_attr(c) == "remove" and "_running" in unparse(c.func)]
         st = [c for c in repo.calls_in(fp) if callee_attr(c) == "set"]
